@@ -101,7 +101,7 @@ class Overlay:
                         rest.append(p)
                 self.items.append(dict(file=rest[0], kind=rest[1], name=' '.join(rest[2:]), **opts))
                 i += 1
-            elif d in ('pre', 'post', 'contract', 'loop', 'proof_start', 'proof_end', 'loop_proof_start', 'loop_proof_end', 'attr', 'proof_at'):
+            elif d in ('pre', 'post', 'contract', 'loop', 'proof_start', 'proof_end', 'loop_proof_start', 'loop_proof_end', 'loop_proof_after', 'loop_ghost_before', 'attr', 'proof_at'):
                 j = i + 1
                 buf = []
                 while j < len(lines) and lines[j].strip() != '//@ end':
@@ -438,6 +438,21 @@ def transform_fn(it: rs.Item, qual: str, ov: Overlay, log, used):
         if pe:
             used.add(('loop_proof_end', qual, k))
             inserts.append((rs.match_close(bm, bo), splice(' proof {\n' + pe['text'] + '\n} ')))
+        gb = ov.proofs.get(('loop_ghost_before', qual, k))
+        if gb:
+            # raw ghost statements (`let ghost x = ..;`) right before the loop: snapshots of the state at loop entry,
+            # so that invariants need not depend on what the code did between function entry and the loop
+            used.add(('loop_ghost_before', qual, k))
+            at = s
+            m4 = re.search(r'/\*@R4<\w+\*/$', body[:s])
+            if m4:
+                at = m4.start()
+            inserts.append((at, splice('\n' + gb['text'] + '\n')))
+        pa = ov.proofs.get(('loop_proof_after', qual, k))
+        if pa:
+            # right after the loop's closing brace (anchored on the loop ordinal, not on code text)
+            used.add(('loop_proof_after', qual, k))
+            inserts.append((rs.match_close(bm, bo) + 1, splice(' proof {\n' + pa['text'] + '\n} ')))
     ps = ov.proofs.get(('proof_start', qual, None))
     if ps:
         used.add(('proof_start', qual, None))
